@@ -2,6 +2,7 @@
 # run every check of MANIFEST.json (quick by default) and print one line per check
 cd "$(dirname "$0")/.."
 TIER=${1:-quick}
+mkdir -p out
 for id in C01 C02 C03 C04 C05 C06 C07 C08 C09 C10 C11 C12 C13 C14 C15 C16 C17 C18 C19 C20; do
   s=$(date +%s); bin/check $id --tier $TIER > out/run_$id.log 2>&1; rc=$?; e=$(date +%s)
   echo "$id rc=$rc $((e-s))s $(grep -c '^VIOLATION' out/run_$id.log) violations $(grep -c '^KNOWN-FINDING' out/run_$id.log) known"
